@@ -7,7 +7,10 @@ The harness builds the file's bytes itself, then for the same file:
      expect exactly the harness-built bytes with that line replaced (same codec, newline, final newline);
      undo restores the original bytes;
  (3) a Rename performed in a python file of that codec/newline changes only the renamed tokens' bytes;
- (4) text written through rope to a new file reads back equal.
+ (4) text written through rope to a new file reads back equal;
+ (5) newline convention converted outside rope between two uses of one File object; (6) undo / redo in a later session;
+ (7) MoveGlobal into a module of this codec / newline / cookie layout keeps the destination's lines and its encoding;
+ (8) a character the declared encoding cannot represent is either refused (bytes intact) or written correctly.
 """
 import codecs
 import os
@@ -26,6 +29,7 @@ RULE = (
     "with/without final newline; inner loop: every line as the edited one; non-trivial = a non-ASCII character and "
     "(codec != utf-8 or newline != LF or no final newline); distinct by case hash"
     "; plus the newline convention converted outside rope between two uses of the same File object; nine cookie spellings (incl. `encoding:` / `fileencoding=` and a form feed before or as the line above the cookie)"
+    "; MoveGlobal into a module with the same header layout; an edit asking for a character outside the declared charset"
 )
 ASSUMPTIONS = [
     "UTF-16/32 and other non-ASCII-compatible codecs are not valid Python source encodings and are outside the domain",
@@ -320,6 +324,42 @@ def _evaluate(case, env, out):
                     project.history.undo()
             except Exception as e:
                 out.violation("C16:undo_in_later_session_raised:" + type(e).__name__, repr(e)[:200])
+        # (8) new contents with a character the declared encoding cannot represent: either the write fails and the file keeps
+        #     its bytes, or what lands on disk decodes, under the declared encoding, to the requested text
+        bad = next((c_ for c_ in CANDIDATES if ord(c_) > 127 and c_ not in alphabet(case["codec"])), None)
+        k8 = next((i for i in range(len(lines)) if i not in cookie_idx and not (i == 0 and case["declared"] == "bom")), None)
+        if bad is not None and k8 is not None and case["declared"] == "cookie":
+            if project is not None:
+                project.close()
+            project = Project(root, ropefolder=None)
+            res8 = project.get_file("f.py")
+            with open(fp, "wb") as fh:
+                fh.write(original)
+            t8 = res8.read().split("\n")
+            t8[k8] = "x" + bad
+            out.evals += 1
+            out.labels["unencodable_character_requested"] += 1
+            try:
+                project.do(ch.ChangeContents(res8, "\n".join(t8)))
+                wrote = True
+            except Exception:
+                wrote = False
+            got = _read(fp)
+            if not wrote and got != original:
+                out.violation("C16:failed_write_changed_bytes", _bd(original, got))
+            elif wrote:
+                try:
+                    ok8 = got.decode(case["codec"]).replace("\r\n", "\n").replace("\r", "\n") == "\n".join(t8)
+                except UnicodeError:
+                    ok8 = False
+                if not ok8:
+                    out.violation("C16:unencodable_text_written_under_declared_encoding", "%r requested for a %s file: %s" % (bad, case["codec"], _bd(original, got)))
+            with open(fp, "wb") as fh:
+                fh.write(original)
+        # (7) a refactoring that inserts code into ANOTHER file of this codec / newline convention / cookie layout (MoveGlobal
+        #     into a module without imports): the destination keeps every original non-blank line byte for byte and in order, is still
+        #     read by the interpreter under its declared encoding, and the moved literal keeps its value
+        _move_into_encoded_module(case, env, out, project, root)
         if nontrivial:
             out.nontrivial.add("c")
     finally:
@@ -327,6 +367,70 @@ def _evaluate(case, env, out):
             project.close()
         core.rmtree(root)
     return out
+
+
+def _exec_bytes(data, name):
+    ns = {"__name__": name}
+    exec(compile(data, name + ".py", "exec", dont_inherit=True), ns)
+    return ns
+
+
+def _move_into_encoded_module(case, env, out, project, root):
+    from rope.base import exceptions as rex
+    from rope.refactor import move
+
+    alpha = [c for c in alphabet(case["codec"]) if ord(c) > 127][:3]
+    lit = "".join(alpha) or "ascii"
+    head = case["cookie"].split("\n") if case["cookie"] else []
+    src_lines = head + ["beta = '%s'" % lit, "def moved():", "    return '%s'" % lit, "gamma = moved()"]
+    dst_lines = head + ["# " + lit, "def own():", "    return '%s'" % lit]
+    sb, db = build_bytes(src_lines, case), build_bytes(dst_lines, case)
+    try:
+        if _exec_bytes(db, "dst")["own"]() != lit or _exec_bytes(sb, "src")["moved"]() != lit:
+            raise ValueError("literal")
+    except Exception:
+        # the interpreter itself does not read this layout the way the harness built it (e.g. CR-only cookie lines)
+        out.notes["move_clause_skipped: interpreter does not read the fixture as built"] += 1
+        return
+    from rope.base.project import Project
+
+    # a project of its own: the files of the other clauses are arbitrary text, not Python
+    root = core.fresh_dir("c16m")
+    for name, data in (("src.py", sb), ("dst.py", db)):
+        with open(os.path.join(root, name), "wb") as fh:
+            fh.write(data)
+    project = Project(root, ropefolder=None)
+    try:
+        sres, dres = project.get_file("src.py"), project.get_file("dst.py")
+        out.evals += 1
+        try:
+            changes = move.create_move(project, sres, sres.read().index("moved")).get_changes(dres)
+            project.do(changes)
+        except rex.RopeError:
+            out.refused += 1
+            return
+        got = _read(os.path.join(root, "dst.py"))
+    finally:
+        project.close()
+        core.rmtree(root)
+    out.labels["move_into_encoded_module"] += 1
+    nlb = case["nl"].encode("ascii")
+    bom = codecs.BOM_UTF8 if case["declared"] == "bom" else b""
+    # (blank lines - whitespace or a lone form feed - are not compared: re-emitting the import block normalises them)
+    want_lines = [ln.encode(case["codec"]) for ln in dst_lines if ln.strip()]
+    got_lines = got[len(bom):].split(nlb) if got.startswith(bom) else None
+    it = iter(got_lines or [])
+    if got_lines is None or not all(any(w == g for g in it) for w in want_lines):
+        out.violation("C16:move_destination_lines_changed:%s" % _why(case), _bd(db, got))
+        return
+    try:
+        ns = _exec_bytes(got, "dst")
+        val = (ns["own"](), ns["moved"]())
+    except Exception as e:
+        out.violation("C16:move_destination_not_readable_under_its_encoding:%s" % type(e).__name__, "%r\n%s" % (e, _bd(db, got)))
+        return
+    if val != (lit, lit):
+        out.violation("C16:move_changed_literal_value", "%r, expected %r twice\n%s" % (val, lit, _bd(db, got)))
 
 
 def _has_newline(lines, case):
